@@ -329,7 +329,7 @@ def make_bases(ctx):
             spec.update(raw_dtype='float32', raw_nonfinite=True,
                         # 12-sample chunks (600 s at 0.02 Hz) and two files: the 40-sample recording
                         # spans four chunks, spikes lie in all of them
-                        sample_rate=0.02, raw_files=2,
+                        sample_rate=0.02, raw_files=2, raw_dir='rec',
                         # an odd window length, and two spikes at the same sample
                         nsw=5, spike_samples=[2, 6, 6, 15, 20, 24, 29, 35])
         if name == 'noraw':
